@@ -89,6 +89,15 @@ pub fn exec(op: &str, a: &Value) -> Option<Value> {
             let sec = 10i128.pow(js::i(a, "k") as u32) * if a["neg"].as_bool().unwrap() { -1 } else { 1 };
             p.get_named_tz_offset_nanoseconds(js::s(a, "zone"), sec * 1_000_000_000).map(|_| ()) }), |_| json!(null)),
         "MiscX.instantTextNoData" => run(|| Instant::try_new(num(&a["ns"]))?.to_ixdtf_string_with_provider(None, ToStringRoundingOptions::default(), &temporal_rs::provider::NeverProvider).map(|_| ()), |_| json!(null)),
+        "MiscX.longDigits" => run(|| { let n = js::i(a, "n") as usize; let d: String = "1234567890".chars().cycle().take(n).collect();
+            match js::s(a, "where") {
+                "offset-fraction" => { let s = format!("+01:00:00.{}", d); let _ = UtcOffset::from_str(&s); let _ = TimeZone::try_from_identifier_str(&s); TimeZone::try_from_str(&s).map(|_| ()) }
+                "time-fraction" => { let _ = PlainTime::from_str(&format!("12:00:00.{}", d)); Instant::from_str(&format!("2020-01-01T12:00:00.{}Z", d)).map(|_| ()) }
+                "zone-offset-fraction" => Instant::from_str(&format!("2020-01-01T12:00:00+01:00:00.{}", d)).map(|_| ()),
+                "duration-field" => { let _ = Duration::from_str(&format!("P{}Y", d)); Duration::from_str(&format!("PT{}S", d)).map(|_| ()) }
+                "duration-fraction" => Duration::from_str(&format!("PT1.{}S", d)).map(|_| ()),
+                _ => { let _ = PlainDate::from_str(&format!("+{}-01-01", d)); PlainYearMonth::from_str(&format!("{}-01", d)).map(|_| ()) }
+            } }, |_| json!(null)),
         // year given as a bare `year` (era = false) or as the era year of the calendar's first listed era where it has one
         "MiscX.partialYear" => run(|| { let cal = Calendar::from_str(js::s(a, "cal"))?; let y = js::i(a, "year") as i32;
             let mut p = temporal_rs::partial::PartialDate::new().with_month(Some(1)).with_day(Some(1)).with_calendar(cal.clone());
